@@ -1,0 +1,15 @@
+//go:build verif
+
+// Contracts for the gvc verifier (see /verif/DESIGN.md). Comment-only file: it adds no code.
+package safeprime
+
+//@ global two != nil && val(two) == 2
+
+//@ func ProbablySafePrime
+//@   property C19 C18 C16
+//@   safety
+//@   requires x != nil
+//@   ensures safe: result ==> val(x) > 2 && isprime(val(x)) && isprime(val(x) / 2)
+//@   ensures complete: val(x) > 2 && isprime(val(x)) && isprime(val(x) / 2) ==> result
+//@   modifies nothing
+//@   mustfail canary: !result
